@@ -92,6 +92,12 @@ int main(int argc, char** argv) {
   ctx.note("exactly meridional geodesics: S12 = c2 (azi2 - azi1) is compared modulo 2 pi c2 (and up to sign where sin azi1 = 0) because the side on which a pole is passed is a convention the documentation does not fix");
   auto tolpos = [&](const geodtab::Ell& E, int sv) { return sv == 0 ? geodtab::tol_series(E) : geodtab::tol_exact(E); };
   auto tolarea = [&](const geodtab::Ell& E, int sv) { return sv == 0 ? geodtab::tol_area_series(E) : geodtab::tol_area_exact(E); };
+  // S12 is the area of the quadrilateral closed by the meridians of the end points, so a position uncertainty eps of an end point at
+  // distance rho from the axis is an uncertainty c2 eps / rho of S12 (unbounded at a pole): conditioning term added to the S12 bound
+  auto tolS12 = [&](const geodtab::Ell& E, int sv, ld sc, ld rho) { ld t = tolpos(E, sv) * sc; return tolarea(E, sv) * sc + E.e.c2() * (rho > t / 3 ? t / rho : 3.0L); };
+  auto rho_of = [&](const geodtab::Ell& E, double lat) { ld sp, cp; geod_ode::sincosd<ld>(lat, sp, cp); return E.e.a * cp / sqrtl(1 - E.e.e2 * sp * sp); };
+  // m12, M12, M21: no documented figure; DESIGN.md Appendix B proposed 2 x position bound (/a).  Calibrated multipliers, frozen:
+  const ld KM_m = 2, KM_M = 2;
 
   // =========================================================================================== direct + split
   const std::vector<double> lats = geodlat::direct_lats(), azis = geodlat::direct_azis();
@@ -118,14 +124,14 @@ int main(int argc, char** argv) {
       std::vector<size_t> ord(L.size()); for (size_t i = 0; i < ord.size(); ++i) ord[i] = i;
       std::stable_sort(ord.begin(), ord.end(), [&](size_t x, size_t y) { return fabsl(L[x].s) < fabsl(L[y].s); });
       for (int dir = 1; dir >= -1; dir -= 2) {
-        Traj<ld> tr(E.e, 30, 1e-22L, 1.0L, true); tr.init(lat1, azi1); ld last = 0;
-        for (size_t k : ord) { if ((dir > 0) != (L[k].s >= 0)) continue; tr.advance(L[k].s / E.e.a); last = L[k].s; L[k].p = tr.point(); ++ntraj; L[k].a12deg = geod_ode::dist_to_arc<ld>(E.e, L[k].p) / D; }
+        Traj<ld> tr(E.e, 30, 1e-22L, 1.0L, true); tr.init(lat1, azi1); ld last = 0, lasta = 0;
+        for (size_t k : ord) { if ((dir > 0) != (L[k].s >= 0)) continue; tr.advance(L[k].s / E.e.a); last = L[k].s; L[k].p = tr.point(); ++ntraj; L[k].a12deg = geod_ode::dist_to_arc<ld>(E.e, L[k].p) / D; lasta = L[k].a12deg; }
         if (last != 0) {                                       // oracle self check (second order / step size), Jacobi fields and area included
           Point<ld> p1 = tr.point(), p2 = geod_ode::follow<ld>(E.e, lat1, azi1, last, true, 38, 1e-23L, 0.6L);
-          ld sc = std::max<ld>(1, fabsl(last) / (2 * E.Q)), tp = std::min(tolpos(E, 0), tolpos(E, 1)) * sc, ta = std::min(tolarea(E, 0), tolarea(E, 1)) * sc;
+          ld sc = std::max<ld>(std::max<ld>(1, fabsl(last) / (2 * E.Q)), fabsl(lasta) / 180), tp = std::min(tolpos(E, 0), tolpos(E, 1)) * sc, ta = std::min(tolarea(E, 0), tolarea(E, 1)) * sc;
           ld rel = std::max(std::max(fabsl(p1.m12 - p2.m12) / (2 * tp), E.e.a * std::max(fabsl(p1.M12 - p2.M12), fabsl(p1.M21 - p2.M21)) / (2 * tp)), p1.meridional ? 0 : fabsl(p1.S12 - p2.S12) / ta);
           ctx.worstf("oracle.two_stepsizes.err_over_tol", (double)rel, [&] { return E.name + " lat1=" + fmt(lat1) + " azi1=" + fmt(azi1) + " s12=" + fmtl(last); });
-          if (!(rel < 0.05)) { fprintf(stderr, "oracle self-check failed: %s lat1=%g azi1=%g s=%Lg rel=%Lg\n", E.name.c_str(), lat1, azi1, last, rel); return 2; }
+          if (!(rel < 0.25)) { fprintf(stderr, "oracle self-check failed: %s lat1=%g azi1=%g s=%Lg rel=%Lg\n", E.name.c_str(), lat1, azi1, last, rel); return 2; }   // (long double round-off times the growth of the Jacobi fields over 7 circuits reaches a few % of the bound)
         }
       }
       for (size_t k = 0; k < L.size(); ++k) {
@@ -133,7 +139,7 @@ int main(int argc, char** argv) {
         const ld sc = std::max<ld>(std::max<ld>(1, fabsl(l.s) / (2 * E.Q)), fabsl(l.a12deg) / 180);
         for (int sv = 0; sv < 3; ++sv) {
           if (sv == 0 && !E.series) continue;
-          const ld tm = 2 * tolpos(E, sv) * sc, tM = tm / E.e.a, tS = tolarea(E, sv) * sc; const char* svn = svname(sv);
+          const ld tm = KM_m * tolpos(E, sv) * sc, tM = KM_M * tolpos(E, sv) * sc / E.e.a, tS = tolS12(E, sv, sc, hypotl(p.r[0], p.r[1])); const char* svn = svname(sv);
           for (int form = 0; form < 3; ++form) {
             Ctx::Case cs(ctx);
             DOut o = S.d(sv, form, l.arc, lat1, lon1, azi1, l.v); ++ncalls;
@@ -173,8 +179,9 @@ int main(int argc, char** argv) {
             if (!(ea <= tpos * std::max<ld>(1, E.e.b / E.e.a))) bad("add-a13", "a13 " + fx(c.a12) + " != a12 + a23 = " + fx(a.a12) + " + " + fx(b.a12));
             if (!p.meridional) {
               ld eS = fabsl((ld)c.S12 - ((ld)a.S12 + (ld)b.S12));
-              ctx.worstf(std::string("split.S13.err_over_tol.") + svn, (double)(eS / (3 * tS)), where);
-              if (!(eS <= 3 * tS)) bad("add-S13", "S13 " + fx(c.S12) + " != S12 + S23 = " + fx(a.S12) + " + " + fx(b.S12));
+              const ld tS3 = tolS12(E, sv, sc, std::min(rho_of(E, a.lat2), rho_of(E, c.lat2)));
+              ctx.worstf(std::string("split.S13.err_over_tol.") + svn, (double)(eS / (3 * tS3)), where);
+              if (!(eS <= 3 * tS3)) bad("add-S13", "S13 " + fx(c.S12) + " != S12 + S23 = " + fx(a.S12) + " + " + fx(b.S12));
             }
             // m13 = m12 M23 + m23 M21
             ld rm = fabsl(m13 - (m12 * M23 + m23 * M21)), bm = tm * (1 + fabsl(M23) + fabsl(M21)) + tM * (fabsl(m12) + fabsl(m23));
@@ -217,7 +224,7 @@ int main(int argc, char** argv) {
       const bool freeazi = (pole1 && pole2 && P.lat1 == -P.lat2) || (E.f == 0 && P.lat1 == -P.lat2 && l12 == 180);
       for (int sv = 0; sv < 3; ++sv) {
         if (sv == 0 && !E.series) continue;
-        const ld tm = 2 * tolpos(E, sv), tM = tm / E.e.a, tS = tolarea(E, sv); const char* svn = svname(sv);
+        const ld tm = KM_m * tolpos(E, sv), tM = KM_M * tolpos(E, sv) / E.e.a, tS = tolS12(E, sv, 1, std::min(rho_of(E, P.lat1), rho_of(E, P.lat2))); const char* svn = svname(sv);
         IOut base;
         for (int form = 0; form < 2; ++form) {
           Ctx::Case cs(ctx);
